@@ -254,12 +254,13 @@ def compare(ctx, j, prop, observables=('out', 'ld'), atol=1e-9, rtol=1e-9, check
         # (both directions) a log-det that differs from the model's by more than exp(|ld|) ulps: where the local slope is tiny (a nearly flat
         # end of a bin, |ld| ~ 25) the log-det f''/f' is far more sensitive to the last ulp of the input than the value is.  Accept
         # when the implementation's log-det lies within the range the MODEL returns on inputs a few ulps away (the implementation is
-        # then the model at an input within rounding distance) and the outputs agreed.
+        # then the model at an input within rounding distance) and the outputs agreed.  The range is sampled at six points only, so
+        # one more width of it is allowed on either side.
         rng_ld = _forward_ld_range(j)
         if rng_ld is not None:
             lo, hi = rng_ld
             if all(close(a, b, atol * 10 + (kap[i] if math.isfinite(kap[i]) else 0.0), rtol * 10)
-                   or (lo[i] - atol * 10 - 0.05 * (hi[i] - lo[i]) <= a <= hi[i] + atol * 10 + 0.05 * (hi[i] - lo[i]))
+                   or (lo[i] - atol * 10 - 1.0 * (hi[i] - lo[i]) <= a <= hi[i] + atol * 10 + 1.0 * (hi[i] - lo[i]))
                    for i, (a, b) in enumerate(zip(ldl, ld))):
                 ok = True; why = ''; br += '/ld-within-ulp-range'
     nontriv = any(abs(a - b) > 1e-12 for a, b in zip(yl, j.x.reshape(-1).tolist())) or any(abs(v) > 1e-12 for v in ldl)
